@@ -19,6 +19,9 @@ type Scheduler interface {
 	Go(f func())
 	// Park is a mandatory scheduling point (after a pipe hand-off).
 	Park(where string)
+	// RLock/RUnlock: shared acquisition of a (read-write) mutex.
+	RLock(m *Mutex)
+	RUnlock(m *Mutex)
 }
 
 type schedBox struct{ s Scheduler }
@@ -136,4 +139,42 @@ func (p *PipeWriter) CloseWithError(e error) error {
 		s.Park("pipe.close")
 	}
 	return err
+}
+
+// RWMutex replaces sync.RWMutex in the instrumented packages.
+type RWMutex struct {
+	id Mutex // identity of the lock in the scheduler's table
+	mu sync.RWMutex
+}
+
+func (m *RWMutex) Lock() {
+	if s := current(); s != nil {
+		s.Lock(&m.id)
+		return
+	}
+	m.mu.Lock()
+}
+
+func (m *RWMutex) Unlock() {
+	if s := current(); s != nil {
+		s.Unlock(&m.id)
+		return
+	}
+	m.mu.Unlock()
+}
+
+func (m *RWMutex) RLock() {
+	if s := current(); s != nil {
+		s.RLock(&m.id)
+		return
+	}
+	m.mu.RLock()
+}
+
+func (m *RWMutex) RUnlock() {
+	if s := current(); s != nil {
+		s.RUnlock(&m.id)
+		return
+	}
+	m.mu.RUnlock()
 }
